@@ -46,7 +46,7 @@ def owner(sec):
     return 'C09'
 
 def main():
-    repo = '/repo'
+    repo = os.environ.get('VERIF_REPO', '/repo')
     only = sys.argv[1] if len(sys.argv) > 1 else None
     tmp = tempfile.mkdtemp(prefix='verif-golden-')
     res = {"files": 0, "cases": 0, "sections_compared": 0, "failures": []}
